@@ -38,8 +38,20 @@ func (w *vWorld) blockAlloc(typeIndex int, size int, mappable bool, persistent b
 //	6: free || free of two allocations sharing a block
 //	7: free || free of the only allocations of two different blocks of one pool (totals must equal a sequential execution:
 //	   exactly one spare empty block is kept)
+//	8: map/unmap || map/unmap of the SAME allocation (reference counting of the block's mapping; afterwards a further
+//	   map/unmap must succeed and no invalid driver call - double map, unmap of an unmapped object - is issued)
+//	9: dedicated allocate || free of another dedicated allocation (dedicated list register/unregister)
+//	10: allocate || allocate in one pool whose current block cannot take both (block creation under the list's lock;
+//	   the totals must equal a sequential execution: exactly two blocks)
+//	11: pool create || pool create (distinct ids, both registered)
+//	12: dedicated allocate || dedicated allocate with room for exactly one more memory object under
+//	   maxMemoryAllocationCount (every sequential execution grants exactly one; the device limit is never exceeded)
 func Verif_C12_Pairs(cfg int) {
-	w := newWorld(12, 0)
+	variant := 0
+	if cfg == 12 {
+		variant = 8 // maxMemoryAllocationCount 2; the block shared by a and b is the first memory object
+	}
+	w := newWorld(12, variant)
 	size := verifNondetInt("size")
 	verifAssume(size >= 1)
 	verifAssume(size <= 100)
@@ -70,6 +82,26 @@ func Verif_C12_Pairs(cfg int) {
 		}
 		pa, pb = mk(), mk() // 200 bytes each: one allocation per 256-byte block
 		verifAssume(pool1.blockList.BlockCount() == 2)
+	case 9:
+		reqs := core1_0.MemoryRequirements{Size: 100, Alignment: 1, MemoryTypeBits: 0x1}
+		x := &Allocation{}
+		_, err := w.al.AllocateMemory(&reqs, AllocationCreateInfo{Flags: AllocationCreateDedicatedMemory}, x)
+		verifAssume(err == nil)
+		pa = &vAlloc{a: x, reqSize: 100, reqAlign: 1, typeBits: 0x1, dedicated: true}
+		w.live = append(w.live, pa)
+	case 10:
+		pool1, _, e1 = w.al.CreatePool(PoolCreateInfo{MemoryTypeIndex: tHostCoh, BlockSize: 256, MaxBlockCount: 3})
+		verifAssume(e1 == nil)
+		w.pools = append(w.pools, pool1)
+	}
+	poolAlloc := func() *vAlloc {
+		reqs := core1_0.MemoryRequirements{Size: 200, Alignment: 1, MemoryTypeBits: 0xF}
+		x := &Allocation{}
+		_, err := w.al.AllocateMemory(&reqs, AllocationCreateInfo{Pool: pool1}, x)
+		if err != nil {
+			return nil
+		}
+		return &vAlloc{a: x, reqSize: 200, reqAlign: 1, typeBits: 2, pool: pool1}
 	}
 	var f1, f2 func()
 	switch cfg {
@@ -118,6 +150,52 @@ func Verif_C12_Pairs(cfg int) {
 	case 7:
 		f1 = func() { e1 = pa.a.Free() }
 		f2 = func() { e2 = pb.a.Free() }
+	case 8:
+		f1 = func() {
+			_, _, e1 = a.a.Map()
+			if e1 == nil {
+				e1 = a.a.Unmap()
+			}
+		}
+		f2 = func() {
+			_, _, e2 = a.a.Map()
+			if e2 == nil {
+				e2 = a.a.Unmap()
+			}
+		}
+	case 9:
+		f1 = func() {
+			reqs := core1_0.MemoryRequirements{Size: 200, Alignment: 1, MemoryTypeBits: 0x1}
+			x := &Allocation{}
+			_, e1 = w.al.AllocateMemory(&reqs, AllocationCreateInfo{Flags: AllocationCreateDedicatedMemory}, x)
+			if e1 == nil {
+				c = &vAlloc{a: x, reqSize: 200, reqAlign: 1, typeBits: 0x1, dedicated: true}
+			}
+		}
+		f2 = func() { e2 = pa.a.Free() }
+	case 10:
+		f1 = func() { pa = poolAlloc() }
+		f2 = func() { pb = poolAlloc() }
+	case 11:
+		f1 = func() {
+			pool1, _, e1 = w.al.CreatePool(PoolCreateInfo{MemoryTypeIndex: tHostCoh, BlockSize: 256, MaxBlockCount: 2})
+		}
+		f2 = func() {
+			pool2, _, e2 = w.al.CreatePool(PoolCreateInfo{MemoryTypeIndex: tDeviceLocal, BlockSize: 256, MaxBlockCount: 2})
+		}
+	case 12:
+		verifAssume(w.dev.liveMemCount() == w.maxAllocs-1) // a and b share one block: room for exactly one more object
+		ded := func(out **vAlloc) error {
+			reqs := core1_0.MemoryRequirements{Size: 200, Alignment: 1, MemoryTypeBits: 0x1}
+			x := &Allocation{}
+			_, err := w.al.AllocateMemory(&reqs, AllocationCreateInfo{Flags: AllocationCreateDedicatedMemory}, x)
+			if err == nil {
+				*out = &vAlloc{a: x, reqSize: 200, reqAlign: 1, typeBits: 0x1, dedicated: true}
+			}
+			return err
+		}
+		f1 = func() { e1 = ded(&pa) }
+		f2 = func() { e2 = ded(&pb) }
 	default:
 		f1 = func() { e1 = a.a.Free() }
 		f2 = func() { e2 = b.a.Free() }
@@ -125,7 +203,18 @@ func Verif_C12_Pairs(cfg int) {
 	verifGo(f1)
 	verifGo(f2)
 	verifJoin()
-	verifAssert("C12/concurrent-operations-return-no-error", verifAnd(e1 == nil, e2 == nil))
+	if cfg == 12 {
+		verifAssert("C12/totals-equal-a-sequential-execution: exactly-one-of-two-racing-requests-granted-at-the-object-limit", (e1 == nil) != (e2 == nil))
+		if pa != nil {
+			w.live = append(w.live, pa)
+		}
+		if pb != nil {
+			w.live = append(w.live, pb)
+		}
+		w.oracleC11("C12/device-object-limit-respected-after-racing-allocations")
+	} else {
+		verifAssert("C12/concurrent-operations-return-no-error", verifAnd(e1 == nil, e2 == nil))
+	}
 	// the goroutines have finished: bring the harness' live set up to date and check the invariants and totals
 	switch cfg {
 	case 0:
@@ -134,6 +223,32 @@ func Verif_C12_Pairs(cfg int) {
 		w.live = []*vAlloc{a}
 	case 6:
 		w.live = nil
+	case 8:
+		// the reference count is back where it was: a further map/unmap pair works and leaves nothing mapped
+		_, _, e1 = a.a.Map()
+		verifAssert("C12/map-after-concurrent-map-unmap-succeeds", e1 == nil)
+		if e1 == nil {
+			e1 = a.a.Unmap()
+			verifAssert("C12/unmap-after-concurrent-map-unmap-succeeds", e1 == nil)
+		}
+	case 9:
+		w.live = []*vAlloc{a, b}
+	case 10:
+		verifAssert("C12/concurrent-pool-allocations-both-succeed", verifAnd(pa != nil, pb != nil))
+		if pa != nil {
+			w.live = append(w.live, pa)
+		}
+		if pb != nil {
+			w.live = append(w.live, pb)
+		}
+		verifAssert("C12/totals-equal-a-sequential-execution: two-blocks-after-concurrent-allocations", pool1.blockList.BlockCount() == 2)
+	case 11:
+		if pool1 != nil {
+			w.pools = append(w.pools, pool1)
+		}
+		if verifAnd(pool1 != nil, pool2 != nil) {
+			verifAssert("C12/concurrently-created-pools-have-distinct-ids", pool1.ID() != pool2.ID())
+		}
 	}
 	if c != nil {
 		w.live = append(w.live, c)
